@@ -94,8 +94,9 @@ class Scenario:
         self.nets = nets  # "net1 net2"
         self.lazy = lazy
         self.vm_strs = vm_strs or {"vm1": "only CentOS\n", "vm2": "only Win10\n", "vm3": "only Ubuntu\n"}
-        self.params = {"nets": nets, "shared_pool": "/mnt/local/images/shared", "test_timeout": 100}
-        self.params.update(params or {})
+        # parameter values are strings, as they arrive from the Cartesian configs and the command line
+        self.params = {"nets": nets, "shared_pool": "/mnt/local/images/shared", "test_timeout": "100"}
+        self.params.update({k: str(v) for k, v in (params or {}).items()})
         self.run_params = run_params  # params given to traverse_object_trees (default: self.params)
         self.D = tuple(D)
         self.O = tuple(O)
@@ -120,7 +121,7 @@ class Scenario:
         s.name = self.name + name_suffix
         for k, v in kw.items():
             if k == "params":
-                s.params.update(v)
+                s.params.update({k2: str(v2) for k2, v2 in v.items()})
             else:
                 setattr(s, k, v)
         return s
@@ -253,6 +254,42 @@ def scope_of(starter_params, source_wid, workers):
     return "own"
 
 
+class FakeSession:
+    """What remote.wait_for_login hands out: a session bound to one shell address (the environment a command really runs in)."""
+
+    def __init__(self, host, port):
+        self.host, self.port = str(host), str(port)
+
+    @property
+    def addr(self):
+        return f"{self.host}:{self.port}"
+
+    def cmd_output(self, *a, **k):
+        return "date"
+
+    cmd = cmd_output
+
+    def close(self):
+        pass
+
+    @property
+    def wid(self):
+        """The worker whose environment this session leads to (by its configured shell address)."""
+        ws = ENV.workers
+        ws.get("")  # lazily filled registries
+        owners = [w.id for w in ws.values() if f"{w.params.get('nets_shell_host')}:{w.params.get('nets_shell_port')}" == self.addr]
+        if len(owners) == 1:
+            return owners[0]
+        node = ENV.current_node
+        if node is not None and node.started_worker is not None and (not owners or node.started_worker.id in owners):
+            return node.started_worker.id  # address shared by several workers of the configuration: no way to tell them apart
+        return owners[0] if owners else self.addr
+
+
+def fake_wait_for_login(client, host, port, *a, **k):
+    return FakeSession(host, port)
+
+
 class Door:
     """Stands in for aexpect.remote_door inside cartgraph.node: answers state control from the world model."""
 
@@ -285,7 +322,8 @@ class Door:
                     modes[suffix] = p.get(f"unset_mode_{m.group(1)}_{suffix}")
         items.sort()
         scope = str(p.get("pool_scope", "own swarm cluster shared")).split()
-        e = ENV.ev("door", do=do, w=wid, node=node.params["name"] if node is not None else None,
+        asked_by = node.started_worker.id if node is not None and node.started_worker is not None else None
+        e = ENV.ev("door", do=do, w=wid, asked_by=asked_by, session=getattr(session, "addr", None), node=node.params["name"] if node is not None else None,
                    ident=ident_of(node.params["name"]) if node is not None else None, items=[list(i) for i in items], scope=scope, modes=modes)
         real = None
         if BINDING["on"] and node is not None and do in ("check", "unset", "get"):
@@ -365,6 +403,15 @@ def _start_record(node):
         "dry_run": params.get("dry_run"),
         "swarm": w.swarm_id if w is not None else None,
     }
+    rec["shell_addr"] = f"{params.get('nets_shell_host')}:{params.get('nets_shell_port')}"
+    rec["handle"] = None
+    if w is not None:
+        # as TestRunner.run_test_task chooses the spawner handle of the task
+        if params.get("nets_spawner") == "lxc":
+            rec["handle"] = params.get("nets_host") or "process"
+        elif params.get("nets_spawner") == "remote":
+            sess = w.get_session()
+            rec["handle"] = getattr(sess, "addr", str(sess))
     for k in getattr(ENV.scn, "watch", ()):
         if k.endswith("@vm"):
             # the value as the vm it is applied to sees it
@@ -441,7 +488,11 @@ def _install_patches(stack):
 
     stack.enter_context(mock.patch.object(nodemod, "door", Door))
     stack.enter_context(mock.patch.object(TestRunner, "run_test_task", fake_run_test_task))
-    stack.enter_context(mock.patch.object(workermod.TestWorker, "get_session", lambda self: self.id))
+    # the real session cache of the workers over a login stand-in: a session leads to one shell address
+    stack.enter_context(mock.patch.object(workermod.remote, "wait_for_login", fake_wait_for_login))
+    for attr, val in list(vars(workermod.TestWorker).items()):
+        if isinstance(val, dict) and not attr.startswith("__"):
+            stack.enter_context(mock.patch.object(workermod.TestWorker, attr, {}))
     stack.enter_context(mock.patch.object(workermod.TestWorker, "start", lambda self: True))
     orig_scan, orig_sync = nodemod.TestNode.scan_states, nodemod.TestNode.sync_states
 
